@@ -235,7 +235,7 @@ def corpus_lines():
 def run(tier, seed, driver):
     res = Result()
     rng = random.Random(seed * 7919 + 2)
-    n = 6000 if tier == "quick" else 150000
+    n = (6000 if tier == "quick" else 150000) * common.effort(tier)
     lines = corpus_lines() + [gen_line(rng) for _ in range(n)]
     if tier == "thorough":
         # exhaustive single-character payloads over all Unicode scalar values
